@@ -146,4 +146,15 @@ Definition judge (op : bytes) (args : list val) (out : val) : verdict :=
     match args with
     | [VTup l] => match exp_sum l 0 with Some e => judge_eq e out | None => JSkip end
     | _ => JSkip end
+  else if op_is op "td.opaddasg" then bin (fun x y => exp_or_panic (x + y)) args out
+  else if op_is op "td.opsubasg" then bin (fun x y => exp_or_panic (x - y)) args out
+  else if op_is op "td.sumv" then
+    match args with
+    | [VTup l] => match exp_sum l 0 with Some e => judge_eq e out | None => JSkip end
+    | _ => JSkip end
+  else if op_is op "td.consts" then
+    (* the closed range is -(2^63-1) ms .. +(2^63-1) ms; zero is the empty duration *)
+    match args with
+    | [] => judge_eq (VTup [enc_ns RMIN; enc_ns RMAX; enc_ns 0; enc_ns RMIN; enc_ns RMAX]) out
+    | _ => JSkip end
   else JSkip.
